@@ -136,6 +136,8 @@ func ruleDrainBeforeTerminal(c *Ctx, r *R) {
 										if body != nil && rv != nil {
 											if ret, ok := body.Instrs[len(body.Instrs)-1].(*ssa.Return); ok && len(ret.Results) == 2 && returnedValue(ret, 0) == rv && isNilConst(returnedValue(ret, 1)) {
 												okDrain = true
+											} else if drainedReachesReturn(fn, body, rv) {
+												okDrain = true
 											} else {
 												detail = "the drained item is not returned with a nil error"
 											}
@@ -731,6 +733,34 @@ func rulePipePublish(c *Ctx, r *R) {
 						dom = true
 					}
 				}
+				if !dom && sf == fn && len(bodies) > 0 {
+					// not inside the arm, but every path to the read has passed through one (the arms leave through a shared exit
+					// that tells them apart by a flag: if received { return item, nil }; err := *s.senderErr): typestate
+					first := map[ssa.Instruction]bool{}
+					for _, bb := range bodies {
+						if len(bb.Instrs) > 0 {
+							first[bb.Instrs[0]] = true
+						}
+					}
+					pf := &PF{N: 2}
+					pf.Instr = func(_ *ssa.Function, x ssa.Instruction, q int) (StateSet, bool) {
+						if first[x] {
+							return ss(1), true
+						}
+						return 0, false
+					}
+					seenRead, allObserved := false, true
+					pf.Visit = func(_ *ssa.Function, x ssa.Instruction, before StateSet) {
+						if x == in {
+							seenRead = true
+							if before != ss(1) {
+								allObserved = false
+							}
+						}
+					}
+					pf.Exits(fn, ss(0))
+					dom = seenRead && allObserved
+				}
 				key := name + "|read-senderErr#" + itoa(nreads)
 				if !r.ok(dom, key, ld.Pos(), "*senderErr is read outside an arm that observed senderDone closed (data race with Close, and a stale value)") {
 					return
@@ -890,25 +920,35 @@ func rulePipeWhoMayClose(c *Ctx, r *R) {
 			return
 		}
 		k++
-		ex, ok := returnedValue(ret, 0).(*ssa.Extract)
-		good := false
-		if ok {
+		fromData := func(v ssa.Value) bool {
+			ex, ok := v.(*ssa.Extract)
+			if !ok {
+				return false
+			}
 			if sel, ok := ex.Tuple.(*ssa.Select); ok {
 				for idx, st := range sel.States {
 					if st.Dir == types.RecvOnly && fieldOfChan(st.Chan) == "c" && recvValue(sel, idx) == ssa.Value(ex) {
-						good = true
+						return true
 					}
 				}
 			}
-		}
-		// … or the value a try-receive helper took from the data channel
-		if ok && !good {
+			// … or the value a try-receive helper took from the data channel
 			if call, isCall := ex.Tuple.(*ssa.Call); isCall && ex.Index == 0 {
 				if cal := staticCallee(&call.Call); cal != nil && c.inModule(cal) {
 					if ci, ok := tryRecvHelper(cal); ok && ci < len(call.Call.Args) && fieldOfChan(call.Call.Args[ci]) == "c" {
-						good = true
+						return true
 					}
 				}
+			}
+			return false
+		}
+		// the value may be carried to a single exit in a local, under a flag set in the arms that received it (item = <-s.c;
+		// received = true; ...; if received { return item, nil }): the alternatives the flag's value leaves possible
+		alts := feasibleAlternatives(returnedValue(ret, 0), b)
+		good := len(alts) > 0
+		for _, a := range alts {
+			if !fromData(a) {
+				good = false
 			}
 		}
 		r.ok(good, "stream.pipeStream.Next|value-source#"+itoa(k), retPos(ret), "a value returned with a nil error must be one received from the data channel")
@@ -1444,4 +1484,42 @@ func alreadyClosedAt(c *Ctx, call *ssa.Call, callee *ssa.Function) bool {
 		}
 	}
 	return false
+}
+
+// drainedReachesReturn: every return that can be reached after the arm (body) has drained the value rv yields that value
+// with a nil error - also when the arm only parks the value in a local and a flag and leaves through a shared exit (item = v;
+// received = true; ...; if received { return item, nil }). Typestate, flag-sensitive.
+func drainedReachesReturn(fn *ssa.Function, body *ssa.BasicBlock, rv ssa.Value) bool {
+	if len(body.Instrs) == 0 {
+		return false
+	}
+	first := body.Instrs[0]
+	pf := &PF{N: 2}
+	pf.Instr = func(_ *ssa.Function, x ssa.Instruction, q int) (StateSet, bool) {
+		if x == first {
+			return ss(1), true
+		}
+		return 0, false
+	}
+	any, all := false, true
+	for _, e := range pf.Exits(fn, ss(0)) {
+		if !e.States.has(1) {
+			continue
+		}
+		any = true
+		if len(e.Ret.Results) != 2 || !isNilConst(returnedValue(e.Ret, 1)) {
+			all = false
+			continue
+		}
+		has := false
+		for _, a := range feasibleAlternatives(returnedValue(e.Ret, 0), e.Ret.Block()) {
+			if a == rv {
+				has = true
+			}
+		}
+		if !has {
+			all = false
+		}
+	}
+	return any && all
 }
